@@ -18,9 +18,11 @@ COQ_MAIN = os.path.join(VERIF, "coq")
 COQ = COQ_MAIN
 CACHE = os.path.join(VERIF, ".cache")
 HARNESS = os.path.join(VERIF, "harness")
-EVID = os.path.join(VERIF, "evidence")
-REPLAYS = os.path.join(VERIF, "replays")
 _REPO_TAG = "" if REPO == "/repo" else "-" + hashlib.sha256(REPO.encode()).hexdigest()[:8]
+# evidence/ records runs against /repo itself only; a run against a scratch worktree (mutation and
+# reverted-fix experiments) writes its evidence under .cache/ so that it never overwrites the record
+EVID = os.path.join(VERIF, "evidence") if REPO == "/repo" else os.path.join(VERIF, ".cache", "evidence" + _REPO_TAG)
+REPLAYS = os.path.join(VERIF, "replays")
 TARGET = os.environ.get("VERIF_TARGET_DIR", os.path.join(CACHE, "target" + _REPO_TAG))
 
 
